@@ -91,5 +91,49 @@ def monitor(script, c):
     return hits
 
 
+def trace_scripts(tier, seed):
+    """srtp_dealloc / srtp_stream_remove with every wipe and free logged, compared event by event with WipeModel.v"""
+    rng = random.Random(seed * 1000 + 21)
+    out = []
+    for k in range(10 if tier == "quick" else 80):
+        ssrc = rng.randrange(2, 1 << 32)
+        p1 = rand_policy(rng, ssrc=ssrc, valid=True)
+        p2 = rand_policy(rng, ssrc=0, ssrc_type=SSRC_ANY_OUT, valid=True)
+        p3 = rand_policy(rng, ssrc=ssrc ^ 5, valid=True)
+        L = [p1.line(1), p2.line(2), p3.line(3), "create 1 1 2 3"]
+        for i in range(rng.choice([0, 2, 5])):
+            mi = rng.randrange(len(p2.keys)) if p2.use_mki else 0
+            L.append(pkt_op("protect", 1, rtp_packet(1000 + i, 1, payload=b"abcd"), extra=200, mki_index=mi))
+        if rng.random() < 0.5:
+            L.append(f"remove_trace 1 {H(ssrc)}")
+        if rng.random() < 0.5:
+            L.append(f"remove_trace 1 {H(1000)}")
+        L.append("dealloc_trace 1"); L.append("heap")
+        out.append((f"trace-{k}", "\n".join(L) + "\n"))
+    return out
+
+
+def trace_monitor(script, c):
+    """independent of the model: in the implementation's own event log every freed block of 'secret size' that was
+    written during its life ... (sizes are configuration dependent, so this monitor only checks the generic rule:
+    a block that is freed right after being wiped in full is fine; a block of the ICM-context or HMAC size freed
+    without a full wipe just before is a violation)"""
+    hits = []
+    for l in c:
+        t = l.split()
+        if len(t) > 3 and t[1] in ("dealloc_trace", "remove_trace") and t[3] != "-":
+            b = bytes.fromhex(t[3])
+            evs = [(b[i], int.from_bytes(b[i + 1:i + 5], "big"), int.from_bytes(b[i + 5:i + 9], "big"), int.from_bytes(b[i + 9:i + 13], "big")) for i in range(0, len(b), 13)]
+            for j, (ty, size, off, ln) in enumerate(evs):
+                if ty == 2 and size in (312,):        # srtp_aes_icm_ctx_t / hmac block on this ABI
+                    prev = evs[j - 1] if j else None
+                    if not prev or prev[0] != 1 or prev[1] != size or prev[2] != 0 or prev[3] != size:
+                        hits.append({"what": "a cipher / HMAC context was freed without being wiped in full immediately before",
+                                     "signature": "free-without-wipe", "detail": f"{l.split()[1]}: event {j} of {len(evs)}"})
+                        return hits
+    return hits
+
+
 def families(tier, seed, ctx):
-    return [Family("lifecycle-scan", build(tier, seed, ctx), monitor=monitor)]
+    return [Family("lifecycle-scan", build(tier, seed, ctx), monitor=monitor),
+            Family("dealloc-event-trace", trace_scripts(tier, seed), monitor=trace_monitor)]
